@@ -1,1 +1,291 @@
 //! Virtual-time in-process network (C02-L2, C09, C13, C14, C15).
+//!
+//! A current-thread tokio runtime with a paused clock and a pinned RNG seed, in-memory duplex
+//! pipes, a scripted connector and an mpsc-fed incoming stream. With a paused clock tokio only
+//! advances time when every task is parked, so `settle()` (a 1 ms virtual sleep) returns exactly
+//! when the system has gone quiescent.
+
+use std::future::Future;
+use std::io;
+use std::pin::Pin;
+use std::sync::atomic::{AtomicBool, AtomicU64, Ordering};
+use std::sync::{Arc, Mutex};
+use std::task::{Context, Poll, Waker};
+use std::time::Duration;
+use tokio::io::{AsyncRead, AsyncWrite, DuplexStream, ReadBuf};
+
+pub fn runtime(seed: u64) -> tokio::runtime::Runtime {
+    let mut b = tokio::runtime::Builder::new_current_thread();
+    b.enable_time().start_paused(true);
+    b.rng_seed(tokio::runtime::RngSeed::from_bytes(&seed.to_le_bytes()));
+    b.build().unwrap_or_else(|e| crate::explore::machinery(format!("runtime: {e}")))
+}
+
+/// Let the system go quiescent (every task parked), advancing virtual time by `ms`.
+pub async fn settle_ms(ms: u64) {
+    tokio::time::sleep(Duration::from_millis(ms)).await;
+}
+
+pub async fn settle() {
+    settle_ms(1).await;
+}
+
+/// Shared state of a severable pipe end.
+#[derive(Default)]
+pub struct Sever {
+    cut: AtomicBool,
+    wakers: Mutex<Vec<Waker>>,
+    /// bytes that crossed this end towards the peer
+    pub written: AtomicU64,
+    /// first bytes written through this end (for "what did the peer see first")
+    pub first_bytes: Mutex<Vec<u8>>,
+}
+
+impl Sever {
+    pub fn cut(&self) {
+        self.cut.store(true, Ordering::SeqCst);
+        for w in self.wakers.lock().unwrap().drain(..) {
+            w.wake();
+        }
+    }
+    pub fn is_cut(&self) -> bool {
+        self.cut.load(Ordering::SeqCst)
+    }
+    fn park(&self, cx: &Context<'_>) {
+        let mut w = self.wakers.lock().unwrap();
+        if w.len() < 8 {
+            w.push(cx.waker().clone());
+        } else {
+            w[0] = cx.waker().clone();
+        }
+    }
+}
+
+/// One end of a pipe: fragmentation pattern + severing.
+pub struct NetIo {
+    inner: Option<DuplexStream>,
+    pub sever: Arc<Sever>,
+    /// cyclic limits for reads/writes (empty = unlimited)
+    pattern: Vec<usize>,
+    /// every k-th operation answers Pending once (0 = never)
+    pending_every: usize,
+    ops: usize,
+    seq: usize,
+}
+
+impl NetIo {
+    pub fn new(inner: DuplexStream, pattern: Vec<usize>, pending_every: usize) -> Self {
+        NetIo { inner: Some(inner), sever: Arc::new(Sever::default()), pattern, pending_every, ops: 0, seq: 0 }
+    }
+    fn limit(&mut self) -> Option<usize> {
+        if self.pattern.is_empty() {
+            None
+        } else {
+            let l = self.pattern[self.seq % self.pattern.len()];
+            Some(l.max(1))
+        }
+    }
+    /// Inject one `Pending` after every `pending_every` operations that transferred bytes.
+    /// (Counting idle polls instead would let a task that touches the pipe twice per poll wake
+    /// itself forever.)
+    fn maybe_pending(&mut self, cx: &mut Context<'_>) -> bool {
+        if self.pending_every > 0 && self.ops >= self.pending_every {
+            self.ops = 0;
+            cx.waker().wake_by_ref();
+            return true;
+        }
+        false
+    }
+    fn progressed(&mut self) {
+        self.ops += 1;
+        self.seq += 1;
+    }
+}
+
+impl AsyncRead for NetIo {
+    fn poll_read(mut self: Pin<&mut Self>, cx: &mut Context<'_>, buf: &mut ReadBuf<'_>) -> Poll<io::Result<()>> {
+        let this = &mut *self;
+        if this.sever.is_cut() {
+            this.inner = None; // the peer sees EOF
+            return Poll::Ready(Ok(())); // EOF
+        }
+        if this.maybe_pending(cx) {
+            return Poll::Pending;
+        }
+        let lim = this.limit();
+        let Some(inner) = this.inner.as_mut() else { return Poll::Ready(Ok(())) };
+        let r = match lim {
+            Some(l) if l < buf.remaining() => {
+                let mut tmp = vec![0u8; l];
+                let mut rb = ReadBuf::new(&mut tmp);
+                match Pin::new(inner).poll_read(cx, &mut rb) {
+                    Poll::Ready(Ok(())) => {
+                        buf.put_slice(rb.filled());
+                        Poll::Ready(Ok(()))
+                    }
+                    other => other,
+                }
+            }
+            _ => Pin::new(inner).poll_read(cx, buf),
+        };
+        match &r {
+            Poll::Pending => this.sever.park(cx),
+            Poll::Ready(Ok(())) => this.progressed(),
+            _ => {}
+        }
+        r
+    }
+}
+
+impl AsyncWrite for NetIo {
+    fn poll_write(mut self: Pin<&mut Self>, cx: &mut Context<'_>, data: &[u8]) -> Poll<io::Result<usize>> {
+        let this = &mut *self;
+        if this.sever.is_cut() {
+            this.inner = None;
+            return Poll::Ready(Err(io::Error::new(io::ErrorKind::BrokenPipe, "connection severed")));
+        }
+        if this.maybe_pending(cx) {
+            return Poll::Pending;
+        }
+        let lim = this.limit();
+        let Some(inner) = this.inner.as_mut() else { return Poll::Ready(Err(io::Error::new(io::ErrorKind::BrokenPipe, "closed"))) };
+        let n = lim.map(|l| l.min(data.len())).unwrap_or(data.len());
+        let r = Pin::new(inner).poll_write(cx, &data[..n]);
+        match &r {
+            Poll::Ready(Ok(k)) => {
+                this.ops += 1;
+                this.seq += 1;
+                this.sever.written.fetch_add(*k as u64, Ordering::Relaxed);
+                let mut fb = this.sever.first_bytes.lock().unwrap();
+                if fb.len() < 32 {
+                    let take = (32 - fb.len()).min(*k);
+                    fb.extend_from_slice(&data[..take]);
+                }
+            }
+            Poll::Pending => this.sever.park(cx),
+            _ => {}
+        }
+        r
+    }
+    fn poll_flush(mut self: Pin<&mut Self>, cx: &mut Context<'_>) -> Poll<io::Result<()>> {
+        match self.inner.as_mut() {
+            Some(i) => Pin::new(i).poll_flush(cx),
+            None => Poll::Ready(Ok(())),
+        }
+    }
+    fn poll_shutdown(mut self: Pin<&mut Self>, cx: &mut Context<'_>) -> Poll<io::Result<()>> {
+        match self.inner.as_mut() {
+            Some(i) => Pin::new(i).poll_shutdown(cx),
+            None => Poll::Ready(Ok(())),
+        }
+    }
+}
+
+impl tonic::transport::server::Connected for NetIo {
+    type ConnectInfo = ();
+    fn connect_info(&self) {}
+}
+
+/// Fragmentation menu for pipes: (read/write length pattern, Pending every k-th op).
+pub fn choppy_menu() -> Vec<(Vec<usize>, usize)> {
+    vec![(vec![], 0), (vec![1], 0), (vec![1, 2, 3], 5), (vec![7], 2), (vec![64], 0), (vec![4096], 5)]
+}
+
+/// A fresh pipe: (client end, server end).
+pub fn pipe(buf: usize, client: &(Vec<usize>, usize), server: &(Vec<usize>, usize)) -> (NetIo, NetIo) {
+    let (a, b) = tokio::io::duplex(buf);
+    (NetIo::new(a, client.0.clone(), client.1), NetIo::new(b, server.0.clone(), server.1))
+}
+
+/// What the scripted connector does on its next invocation.
+#[derive(Clone, Copy, Debug, PartialEq, Eq)]
+pub enum ConnectMode {
+    Fail,
+    Succeed,
+}
+
+/// State shared between the driver and the scripted connector.
+pub struct ConnectorState {
+    pub mode: Mutex<ConnectMode>,
+    pub invocations: AtomicU64,
+    /// answer only after one Pending
+    pub delayed: bool,
+    pub chop_client: (Vec<usize>, usize),
+    pub chop_server: (Vec<usize>, usize),
+    /// sever handles of every connection handed out, in order
+    pub conns: Mutex<Vec<Arc<Sever>>>,
+    /// server ends are offered here
+    pub incoming: tokio::sync::mpsc::UnboundedSender<NetIo>,
+    pub uris: Mutex<Vec<String>>,
+}
+
+struct YieldOnce(bool);
+impl Future for YieldOnce {
+    type Output = ();
+    fn poll(mut self: Pin<&mut Self>, cx: &mut Context<'_>) -> Poll<()> {
+        if self.0 {
+            Poll::Ready(())
+        } else {
+            self.0 = true;
+            cx.waker().wake_by_ref();
+            Poll::Pending
+        }
+    }
+}
+
+/// The connector service handed to `Endpoint::connect_with_connector[_lazy]`.
+pub fn connector(
+    st: Arc<ConnectorState>,
+) -> impl tower_service::Service<http::Uri, Response = hyper_util::rt::TokioIo<NetIo>, Error = io::Error, Future = Pin<Box<dyn Future<Output = Result<hyper_util::rt::TokioIo<NetIo>, io::Error>> + Send>>> + Send + 'static
+{
+    tower::service_fn(move |uri: http::Uri| {
+        let st = st.clone();
+        Box::pin(async move {
+            st.invocations.fetch_add(1, Ordering::SeqCst);
+            st.uris.lock().unwrap().push(uri.to_string());
+            if st.delayed {
+                YieldOnce(false).await;
+            }
+            let mode = *st.mode.lock().unwrap();
+            match mode {
+                ConnectMode::Fail => Err(io::Error::new(io::ErrorKind::ConnectionRefused, "scripted connect failure")),
+                ConnectMode::Succeed => {
+                    let (c, s) = pipe(1 << 16, &st.chop_client, &st.chop_server);
+                    st.conns.lock().unwrap().push(c.sever.clone());
+                    if st.incoming.send(s).is_err() {
+                        return Err(io::Error::new(io::ErrorKind::ConnectionRefused, "server is gone"));
+                    }
+                    Ok(hyper_util::rt::TokioIo::new(c))
+                }
+            }
+        }) as Pin<Box<dyn Future<Output = Result<hyper_util::rt::TokioIo<NetIo>, io::Error>> + Send>>
+    })
+}
+
+pub fn connector_state(mode: ConnectMode, delayed: bool, chop: usize) -> (Arc<ConnectorState>, tokio::sync::mpsc::UnboundedReceiver<NetIo>) {
+    let (tx, rx) = tokio::sync::mpsc::unbounded_channel();
+    let menu = choppy_menu();
+    let st = ConnectorState {
+        mode: Mutex::new(mode),
+        invocations: AtomicU64::new(0),
+        delayed,
+        chop_client: menu[chop % menu.len()].clone(),
+        chop_server: menu[(chop / menu.len() + chop) % menu.len()].clone(),
+        conns: Mutex::new(vec![]),
+        incoming: tx,
+        uris: Mutex::new(vec![]),
+    };
+    (Arc::new(st), rx)
+}
+
+/// Incoming stream for `Server::serve_with_incoming[_shutdown]`.
+pub fn incoming(rx: tokio::sync::mpsc::UnboundedReceiver<NetIo>) -> impl tokio_stream::Stream<Item = Result<NetIo, io::Error>> + Send + 'static {
+    use tokio_stream::StreamExt;
+    tokio_stream::wrappers::UnboundedReceiverStream::new(rx).map(Ok)
+}
+
+/// Await `fut` with a virtual-time horizon: `None` means it never completed (hang/deadlock —
+/// with a paused clock the horizon is reached as soon as every task is parked).
+pub async fn within<F: Future>(horizon: Duration, fut: F) -> Option<F::Output> {
+    tokio::time::timeout(horizon, fut).await.ok()
+}
